@@ -101,7 +101,10 @@ def check(case, out):
         # history: the same request on a float twin first (value-keyed caches must not leak floats)
         out.cls("float-twin-first")
         try:
-            lib.build_curve(dict(c, num="float")).knot_insert([float(z) for z in nodes])
+            # (every other time with the very node objects of the exact request: a cache keyed by value *and*
+            # type of the node still mixes up a float knot vector with the equal Fraction one)
+            same = len(nodes) % 2 == 1
+            lib.build_curve(dict(c, num="float")).knot_insert(list(lnodes) if same else [float(z) for z in nodes])
         except Exception as exc0:
             if not lib.from_library(exc0):
                 raise
